@@ -71,8 +71,8 @@ TraceInvalid ==
   /\ UNCHANGED <<cid, ncases>>
 
 (* Cli.tla: one run of the binary = the composition of the machine's steps; only the terminal state is observable *)
-IsDirKind(k) == k \in {"dir", "dir_slash", "dir_dotted", "symlink_dir"}
-CanInfer(f, k) == (k \in {"file", "devfull", "existing_larger"} /\ f # "archlinux") \/ k = "file_other_ext"
+IsDirKind(k) == k \in {"dir", "dir_slash", "dir_dotted", "dir_tilde", "symlink_dir"}
+CanInfer(f, k) == (k \in {"file", "file_tilde", "devfull", "existing_larger"} /\ f # "archlinux") \/ k = "file_other_ext"
 Signs(f) == f \in {"deb", "rpm", "apk"}
 ExpectFail(a) == (a.fault # "none" /\ ~(a.fault = "missing_key" /\ ~Signs(a.built))) \/ (~a.with_p /\ ~CanInfer(a.fmt, a.target_kind))
 
